@@ -1392,22 +1392,27 @@ func r18e(c *core.Ctx) {
 			continue
 		}
 		sets, closes, cancels := false, false, false
-		core.EachInstr(fn, func(_ *ssa.BasicBlock, _ int, in ssa.Instruction) {
-			if st, ok := in.(*ssa.Store); ok && core.IsFieldAddr(st.Addr, t.structName, "closed") {
-				if b, ok := core.ConstBool(st.Val); ok && b {
-					sets = true
-				}
+		for _, hf := range helperReach(fn, 1) {
+			if hf.Parent() != nil && hf.Parent() != fn {
+				continue
 			}
-			if ci, ok := in.(ssa.CallInstruction); ok {
-				n := core.CallName(ci)
-				if strings.HasSuffix(n, ".Close") || strings.HasSuffix(n, "CloseWithError") {
-					closes = true
+			core.EachInstr(hf, func(_ *ssa.BasicBlock, _ int, in ssa.Instruction) {
+				if st, ok := in.(*ssa.Store); ok && core.IsFieldAddr(st.Addr, t.structName, "closed") {
+					if b, ok := core.ConstBool(st.Val); ok && b {
+						sets = true
+					}
 				}
-				if core.StaticCallee(ci) == nil && !ci.Common().IsInvoke() && strings.Contains(ci.Common().Value.Type().String(), "CancelCauseFunc") {
-					cancels = true
+				if ci, ok := in.(ssa.CallInstruction); ok {
+					n := core.CallName(ci)
+					if strings.HasSuffix(n, ".Close") || strings.HasSuffix(n, "CloseWithError") {
+						closes = true
+					}
+					if core.StaticCallee(ci) == nil && !ci.Common().IsInvoke() && strings.Contains(ci.Common().Value.Type().String(), "CancelCauseFunc") {
+						cancels = true
+					}
 				}
-			}
-		})
+			})
+		}
 		c.Check(sets && closes && cancels, "transport-close-effects:"+t.fn, fn.Pos(), fn, "Close marks the transport closed, closes tracked connections and cancels the transport context", fmt.Sprintf("sets=%v closes=%v cancels=%v", sets, closes, cancels))
 	}
 	_ = sort.Strings
@@ -1439,18 +1444,29 @@ func r18g(c *core.Ctx) {
 	// every other insert into a connection set is a subset relation: idleConns only receives registered conns (R06a)
 	ranged := ""
 	var closeCall ssa.CallInstruction
+	// in Close itself or in a helper of the type that Close calls on every path (with the lock held)
+	inClose := map[*ssa.Function]bool{cl: true}
+	for _, call := range core.Calls(cl) {
+		if h := core.StaticCallee(call); h != nil && h.Pkg == cl.Pkg && h.Blocks != nil && h.Signature.Recv() != nil && len(call.Common().Args) > 0 && isReceiverOf(call.Common().Args[0], cl) {
+			if core.Reach(cl, nil, core.IsReturn, func(in ssa.Instruction) bool { return in == call.(ssa.Instruction) }) == nil || hasCond(call.Block(), ".closed", false) {
+				inClose[h] = true
+			}
+		}
+	}
 	for _, op := range mapOps(c, "ReuseConnTransport", reg) {
-		if op.Fn == cl && op.Kind == "range" {
+		if inClose[op.Fn] && op.Kind == "range" {
 			ranged = reg
 		}
 	}
-	for _, call := range core.Calls(cl) {
-		if call.Common().IsInvoke() && call.Common().Method.Name() == "Close" {
-			closeCall = call
+	for f := range inClose {
+		for _, call := range core.Calls(f) {
+			if call.Common().IsInvoke() && call.Common().Method.Name() == "Close" {
+				closeCall = call
+			}
 		}
 	}
 	c.Check(ranged == reg, "close-ranges-registry", cl.Pos(), cl, "Close iterates the set of ALL registered connections (t."+reg+"), busy ones included", "")
-	okRecv := closeCall != nil && strings.Contains(core.Expr(closeCall.Common().Value), "range(t."+reg+")")
+	okRecv := closeCall != nil && strings.Contains(core.Expr(closeCall.Common().Value), "range(") && strings.Contains(core.Expr(closeCall.Common().Value), "."+reg+")")
 	c.Check(okRecv, "close-closes-each", cl.Pos(), cl, "Close closes the socket of every connection in that set", "")
 	// connections leave the registry only when they are closed (releaseConn error edge, getIdleConn closed edge)
 	for _, op := range mapOps(c, "ReuseConnTransport", reg) {
